@@ -3,6 +3,7 @@
 use crate::runner::Scenario;
 
 pub mod common;
+pub mod direct;
 pub mod lifecycle;
 pub mod c01;
 pub mod c02;
@@ -15,7 +16,7 @@ pub mod c14;
 pub mod c15;
 
 pub fn all() -> Vec<&'static Scenario> {
-    vec![&c01::IDENTITY, &c01::VERIFIERS, &c02::RPC, &c03::EXPECTED, &lifecycle::C04_HISTORY, &c05::MUTUAL, &c06::HOSTILE, &lifecycle::C09_HISTORY, &c11::DEADLINE, &c12::ABANDON, &c14::NAMES, &c15::LIMITS]
+    vec![&c01::IDENTITY, &c01::VERIFIERS, &c02::RPC, &c03::EXPECTED, &lifecycle::C04_HISTORY, &direct::C04_DIRECT, &c05::MUTUAL, &direct::C05_DIRECT, &c06::HOSTILE, &lifecycle::C09_HISTORY, &c11::DEADLINE, &c12::ABANDON, &c14::NAMES, &c15::LIMITS]
 }
 
 pub fn for_property(id: &str) -> Vec<&'static Scenario> {
